@@ -241,6 +241,8 @@ PROGRAMS = [
     (["        ORG     $3F00", "BEGIN   LDX     #$1234", "LOOP    LEAX    -1,X", "        BNE     LOOP", "        RTS"], None),
     (["        NAM     lower", "        ORG     $10", "S       NOP", "        FCB     1,2,3"], "lower"),
     (["        NAM     VERYLONGNAME", "S       CLRA", "        FDB     $55,$3C00"], "VERYLONGNAME"),
+    # two ORGs before the first byte and label: the code lies at the LAST one, which is the origin / load address (seed C02-6)
+    (["        NAM     TWOORG", "        ORG     $0E00", "        ORG     $3000", "GO      LDX     #GO", "        JMP     GO"], "TWOORG"),
     (["        NOP"], None),
     (["        ORG     $7000", "        RMB     3000", "        FCC     \"U<\"", "        RTS"], None),
     (["        ORG     $0E00", "        LDA     #300A"], None),            # rejected
@@ -281,7 +283,7 @@ def run_asm_matrix(run, quick=True, sub_every=0, props=("C10", "C11")):
             cells.append((["to_bin", "to_cas", "to_dsk"] if n % 2 else ["to_dsk"], False, "absent"))
     reqs, ctx = [], []
     for ci, (sws, append, tk) in enumerate(cells):
-        prog, pname = (PROGRAMS[ci % 4] if ci < 3 * 2 * len(kinds) else PROGRAMS[rnd.randrange(len(PROGRAMS))]) if rnd.random() < 0.9 else (
+        prog, pname = (PROGRAMS[ci % 5] if ci < 3 * 2 * len(kinds) else PROGRAMS[rnd.randrange(len(PROGRAMS))]) if rnd.random() < 0.9 else (
             [l.rstrip("\n") for l in next(iter(gen_asm.random_programs(rnd, 1, 0.97)))["lines"]], None)
         if ci >= len(cells) - len(sized):
             prog, pname = sized_program(sized[ci - (len(cells) - len(sized))])
@@ -424,6 +426,10 @@ def check_c11(run, inp, sw, lines, argname, after, cls, before):
         return
     image = im["image"]
     origin = im.get("originInt") or 0
+    # the image must be loaded where the listing puts its first byte: that address, not merely what the tool reports as origin
+    first = next((st for st in im["stmts"] if st["bytes"]), None)
+    if first is not None and first["addr"]:
+        origin = int(first["addr"], 16)
     pname = im.get("name") or argname
     if sw == "to_bin":
         if hexs(after) != image:
